@@ -576,6 +576,7 @@ type coreGen struct {
 	h     *coreH
 	focus string
 	r     *Run
+	stuck *coreStuck // --- w-coreb: stuck-finalization generator branch (core_stuck_test.go) ---
 }
 
 func (c *coreGen) pickActor() int { return c.g.Intn(c.h.p.NActors) }
@@ -592,6 +593,12 @@ func (c *coreGen) next(s *coreSnap, inBlock *bool, step int) string {
 		dt := []int64{1000000000, 6000000000, 500000000, 13000000000}[g.Intn(4)]
 		return fmt.Sprintf("begin dt=%d", dt)
 	}
+	// --- w-coreb: stuck finalization: observe the last outcome; fork around the stuck state ---
+	c.stuckObserve(s)
+	if l := c.stuckOp(s); l != "" {
+		return l
+	}
+	// --- end w-coreb ---
 	endP := 12
 	if c.focus == "C08" || c.focus == "C02" || c.focus == "C11" {
 		endP = 22
@@ -612,6 +619,7 @@ func (c *coreGen) next(s *coreSnap, inBlock *bool, step int) string {
 				fail = strings.Join(fs, ",")
 			}
 		}
+		fail = c.stuckEnd(s, fail) // --- w-coreb: stuck finalization: same (rollapp, index) for k blocks ---
 		return "end fail=" + fail
 	}
 	var existing []int
